@@ -2,27 +2,83 @@
 C12 — word enumeration and finiteness.
 -/
 import Pfl.Props.C09_CNF
+import Pfl.Proofs.CFGWords
 namespace Pfl
 namespace CFG
+open Words
 
 /-- `get_words(n)`: whenever the loop finishes it has yielded each generated word of length
 `≤ n` exactly once and nothing else -/
 theorem getWords_exact (G : CFG) (hG : G.WF) (n fuel : Nat) (ws : List (List String))
     (h : G.getWords (some n) fuel = some ws) :
     ws.Nodup ∧ ∀ w, w ∈ ws ↔ w.length ≤ n ∧ G.Lang w := by
-  sorry
+  cases n with
+  | zero =>
+    simp only [getWords, if_true, Option.some.injEq] at h
+    subst h
+    constructor
+    · split <;> simp
+    · intro w
+      constructor
+      · intro hw
+        split at hw
+        · rename_i he
+          simp only [List.mem_singleton] at hw
+          subst hw; exact ⟨Nat.le_refl _, (generateEpsilon_iff G).mp he⟩
+        · cases hw
+      · rintro ⟨hl, hg⟩
+        have : w = [] := List.eq_nil_of_length_eq_zero (by omega)
+        subst this
+        rw [if_pos ((generateEpsilon_iff G).mpr hg)]; simp
+  | succ n =>
+    have := getWords_spec G hG (some (n + 1)) (by simp) fuel ws h
+    refine ⟨this.1, ?_⟩
+    intro w
+    rw [this.2]
+    constructor
+    · rintro ⟨h1, h2⟩; exact ⟨h2 _ rfl, h1⟩
+    · rintro ⟨h1, h2⟩; exact ⟨h2, fun m hm => by cases hm; exact h1⟩
 
 /-- unbounded `get_words()`: the stopping rule only fires when no longer word exists -/
 theorem getWords_exact_unbounded (G : CFG) (hG : G.WF) (fuel : Nat) (ws : List (List String))
     (h : G.getWords none fuel = some ws) :
     ws.Nodup ∧ ∀ w, w ∈ ws ↔ G.Lang w := by
-  sorry
+  have := getWords_spec G hG none (by simp) fuel ws h
+  refine ⟨this.1, ?_⟩
+  intro w
+  rw [this.2]
+  simp
 
 /-- `is_finite`: whenever it answers, the answer is finiteness of the language -/
 theorem isFinite_iff (G : CFG) (hG : G.WF) (fuel : Nat) (b : Bool)
     (h : G.isFinite fuel = some b) :
     b = true ↔ ∃ n, ∀ w, G.Lang w → w.length ≤ n := by
-  sorry
+  rw [isFinite_eq] at h
+  cases hN : G.toNormalForm fuel with
+  | none => rw [hN] at h; cases h
+  | some N =>
+    rw [hN] at h
+    simp only [Option.map_some, Option.some.injEq] at h
+    have hlang := toNormalForm_lang G hG fuel N hN
+    have hnf := toNormalForm_isNormalForm G hG fuel N hN
+    have hwf := toNormalForm_wf G hG fuel N hN
+    have hU := toNormalForm_useful G hG fuel N hN
+    have hcyc := hasCycle_iff N hwf
+    rw [← h]
+    simp only [Bool.not_eq_true', ← Bool.not_eq_true, hcyc]
+    constructor
+    · intro hc
+      refine ⟨2 ^ N.vars.length, ?_⟩
+      intro w hw
+      by_cases hw0 : w = []
+      · subst hw0; simp
+      · have : N.Lang w := (hlang w).mpr ⟨hw, hw0⟩
+        obtain ⟨s, _, hg⟩ := (lang_iff_gen N w).mp this
+        exact acyclic_bounded hnf hwf hc s w hg
+    · rintro ⟨n, hn⟩ hc
+      obtain ⟨w, hw, hl⟩ := cycle_unbounded hnf hU hc (n + 1)
+      have := hn w ((hlang w).mp hw).1
+      omega
 
 end CFG
 end Pfl
